@@ -79,6 +79,7 @@ POOLS = {
     'rbr': (PUNCT, [']'], 'Token.Punctuation'),
     'dcolon': (PUNCT, ['::'], 'Token.Punctuation'),
     'semi': (PUNCT, [';'], 'Token.Punctuation'),
+    'go': (WORD, ['GO', 'go', 'Go'], 'Token.Keyword'),
 }
 
 GAPS = {
